@@ -17,13 +17,31 @@ CHECK = {
     "entries": [
         {"fn": P + "vC42_producer", "replay": "model-only", "opts": {"feasibility": True, "unwind": 8}},
         {"fn": P + "vC42_consumer", "replay": "model-only",
-         "cases_quick": {"kind": [0, 1, 2, 3, 4], "bufLen": [0, 1, 2], "seqBits": [16]},
-         "cases_thorough": {"kind": [0, 1, 2, 3, 4], "bufLen": [0, 1, 2, 3], "seqBits": [61]},
-         "cover_optional": ("redelivered", "delivered", "advanced", "session-reset", "buffered")},
+         "cases_quick": {"kind": [0, 1, 2, 3, 4], "bufLen": [0, 1, 2, 3], "seqBits": [61], "maxWindow": [4]},
+         "cases_thorough": {"kind": [0, 1, 2, 3, 4], "bufLen": [0, 1, 2, 3, 4], "seqBits": [61], "maxWindow": [5]},
+         "cover_optional": ("redelivered", "delivered", "advanced", "session-reset", "buffered"),
+         # assertions about an event that only some message kinds can cause (unreachable elsewhere is the intended fact)
+         "may_be_unreachable": (
+             "a Delivery goes to the bound consumer endpoint only",
+             "a Delivery is told again only by the tick and only while it is still the unconfirmed one in flight",
+             "a new Delivery is the one in flight and carries exactly expectedSeq (no gap, no reordering)",
+             "the consumer is handed P(expectedSeq): the id and payload produced under that sequence",
+             "a new Delivery is handed over only when nothing is in flight or the one in flight was just confirmed",
+             "a Delivery carries the adopted session",
+             "expectedSeq advances by exactly one, on the Confirmed that matches the Delivery in flight",
+             "otherwise expectedSeq only changes when a new producer session is adopted, which resets delivery state to the acked NextSeq",
+         )},
     ],
     "opts": {"unwind": 8, "substitute": SUB, "feasibility": False, "batch_fresh": True, "reach_fresh": True, "equalfold_ascii": True},
     "stop": [k for k in SUB.keys() if k.startswith("(*" + P)],
     "timeout_ms": {"quick": 400000, "thorough": 1800000},
-    "explanation": "TODO",
-    "bounds": {},
+    "explanation": "Handler-step invariants (encoding (a) of the plan), volatile mode, whole messages (no chunking). The bounded fault history (b) and liveness ('eventually confirmed') are NOT claimed. "
+                   "vC42_producer: the real (*producerController).Receive runs for one arbitrary message from an arbitrary state satisfying I_p (0 <= confirmedSeq <= currentSeq, unconfirmed = the 0..3 contiguous ascending sequences (confirmedSeq, currentSeq], StoredAck phase => the pending message is the latest stored one). Asserted at every emission: what goes out under sequence s carries the id and payload stored under s (P(s)) - or is the just-accepted pending message - in the controller's session, and emissions within a step ascend; Stored reports the latest stored sequence. "
+                   "After the step: I_p preserved; every surviving entry kept its id and payload; a new sequence (currentSeq+1, at most one per step) is given only to the message the bound producer offers under the open credit token; the list is cut only at its head, up to a confirmation authenticated for the current registration/session/nonce and <= currentSeq - so nothing above the watermark is ever dropped. "
+                   "vC42_consumer: the real (*consumerController).Receive runs for one arbitrary message from an arbitrary state satisfying I_c (expectedSeq = confirmedSeq+1, buffer strictly ascending, above expectedSeq, within the grant, every entry = P(seq); inFlight != nil => inFlight is P(expectedSeq) under sequence expectedSeq; window 1..4) under the network invariant 'a SequencedMessage of the adopted session carries P(seq)' (stale-session messages, RegistrationAcks, Confirmeds, ticks, Terminated are arbitrary; any sender; duplicates, reordering and stale traffic are all just 'one arbitrary message'). "
+                   "P is a ghost table (id, payload) for the 6 sequences from expectedSeq. Asserted: every new Delivery is the one in flight, carries exactly expectedSeq and P(expectedSeq), is handed over only when nothing is in flight or the one in flight was just confirmed, at most one per step; a Delivery is told again only by the tick and only while still in flight; expectedSeq advances by exactly one on the Confirmed matching the in-flight Delivery (sender, session, id, seq) and otherwise only when a new producer session is adopted (reset to the acked NextSeq with empty buffer); I_c preserved. "
+                   "By induction over any message/fault history: the consumer endpoint is handed P(1), P(2), ... in order without gaps within a session, and only re-presented the unconfirmed one. Substitutions as in C43.",
+    "bounds": {"producer": "unconfirmed 0..3, confirmedSeq < 2^62", "consumer quick": "window 1..4, buffer 0..3, confirmedSeq < 2^61, incoming seq any int64", "consumer thorough": "window 1..5, buffer 0..4", "payloads": "1 byte, ids from a 4-element universe",
+               "not encoded": "bounded fault history from the initial state, liveness, controller restarts, durable queue lanes, chunk assembly"},
+    "assumptions": ["strings.EqualFold modelled for ASCII strings only", "strings.TrimSpace of a symbolic string trims ASCII white space only", "the serializer is a bijection on frames (identity in the harness)"],
 }
